@@ -108,6 +108,8 @@ def problems(objs, check):
         out += c01_problems(allobjs)
     if which.startswith("I3") or not which:
         out += c02_problems(allobjs)
+    if which.startswith("I4"):
+        out += c10_problems(allobjs)
     return out
 
 
@@ -229,4 +231,108 @@ def mirror_problems(lst, allobjs, skip_outer=False):
                 out.append("mirror disagrees on the top instance")
         if hasattr(o, "_data") and lst.data.get(id(o), {}) != dict(o._data):
             out.append("mirror disagrees on element data")
+    return out
+
+
+# ------------------------------------------------------------------------------------------------
+# C10 oracle: the naming plug-in's tables against a linear scan of the real children
+def c10_problems(allobjs):
+    from spydrnet.plugins import namespace_manager as nm
+    from spydrnet.global_state import global_service as gs
+    out = []
+    scopes = {sdn.Netlist: [("libraries", sdn.Library)], sdn.Library: [("definitions", sdn.Definition)],
+              sdn.Definition: [("ports", sdn.Port), ("cables", sdn.Cable), ("children", sdn.Instance)]}
+    for o in allobjs:
+        for P, kids in scopes.items():
+            if not isinstance(o, P):
+                continue
+            ns = nm.namespaces.get(o)
+            for lst, C in kids:
+                children = list(getattr(o, lst))
+                if ns is not None:
+                    for table, key, norm in ((getattr(ns, "namespaces", {}), ".NAME", lambda x: x),
+                                             (getattr(ns, "edif_namespaces", {}), "EDIF.identifier",
+                                              lambda x: x.lower())):
+                        tab = table.get(C, {})
+                        for name, child in tab.items():
+                            if not any(child is c for c in children) or key not in child or \
+                                    norm(child[key]) != name:
+                                out.append("ghost entry %r (%s) in the %s table of a %s" % (
+                                    name, key, C.__name__, P.__name__))
+                        if table is getattr(ns, "edif_namespaces", None) or key == ".NAME":
+                            for c in children:
+                                if key in c and tab.get(norm(c[key])) is not c and (
+                                        key == ".NAME" or hasattr(ns, "edif_namespaces")):
+                                    out.append("child with %s=%r missing from the table" % (key, c[key]))
+                # exact lookup must agree with the scan
+                for key in (".NAME", "EDIF.identifier"):
+                    for c in children:
+                        if key in c:
+                            got = gs.lookup(o, C, key, c[key])
+                            scan = [x for x in children if key in x and x[key] == c[key]]
+                            if got is not (scan[0] if scan else None) and ns is not None:
+                                out.append("lookup(%s=%r) disagrees with a scan" % (key, c[key]))
+    return out
+
+
+# ------------------------------------------------------------------------------------------------
+# C07 oracle: faithful, self-contained, independent copy (plain recursive comparison)
+def clone_problems(root, copy, whole_netlist):
+    out = []
+    pairs = {}
+
+    def same(a, b, path):
+        if a is None or b is None:
+            if a is not b:
+                out.append("%s: one side is None" % path)
+            return
+        if id(a) in pairs:
+            if pairs[id(a)] is not b:
+                out.append("%s: one original corresponds to two copies" % path)
+            return
+        pairs[id(a)] = b
+        if a is b:
+            out.append("%s: the copy shares this %s with the original" % (path, type(a).__name__))
+            return
+        if type(a) is not type(b):
+            out.append("%s: copy is a %s.%s, original a %s.%s" % (
+                path, type(b).__module__, type(b).__name__, type(a).__module__, type(a).__name__))
+            return
+        if hasattr(a, "_data") and dict(a._data) != dict(b._data):
+            out.append("%s: data differ" % path)
+        for P, lst, C, back in PAIRS:
+            if isinstance(a, P):
+                la, lb = list(getattr(a, lst)), list(getattr(b, lst))
+                if len(la) != len(lb):
+                    out.append("%s.%s: %d vs %d elements" % (path, lst, len(la), len(lb)))
+                for k, (x, y) in enumerate(zip(la, lb)):
+                    same(x, y, "%s.%s[%d]" % (path, lst, k))
+                    if getattr(y, back) is not b:
+                        out.append("%s.%s[%d]: copy does not name the copied parent" % (path, lst, k))
+        if isinstance(a, (sdn.Port, sdn.Cable)):
+            for f in ("is_downto", "is_scalar", "lower_index"):
+                if getattr(a, f) != getattr(b, f):
+                    out.append("%s.%s differs" % (path, f))
+        if isinstance(a, sdn.Port) and a.direction != b.direction:
+            out.append("%s.direction differs" % path)
+        if isinstance(a, sdn.Instance):
+            if whole_netlist:
+                same(a.reference, b.reference, path + ".reference")
+            elif a.reference is not b.reference and id(a.reference) not in pairs:
+                out.append("%s.reference changed" % path)
+            if len(a._pins) != len(b._pins):
+                out.append("%s: %d vs %d outer pins" % (path, len(a._pins), len(b._pins)))
+    same(root, copy, type(root).__name__)
+    # connections: compared through the pairing built above
+    for ida, b in list(pairs.items()):
+        pass
+    if isinstance(root, sdn.Netlist):
+        same(root.top_instance, copy.top_instance, "Netlist.top_instance")
+    copies = closure([copy])
+    orig_ids = set(pairs.keys())
+    if whole_netlist:
+        for o in copies:
+            if id(o) in orig_ids:
+                out.append("an element of the original (%s) is reachable from the copy" % type(o).__name__)
+                break
     return out
